@@ -219,10 +219,10 @@ enum Op {
     /// `hq submit --wait`: a new closed job of n equal tasks on a connection of its own, with live
     /// job events requested; the journal flush of this submit is HELD until FlushDone
     SubmitW { n: u32, rq: RqSpec, prio: i32 },
-    /// the journal thread answers the held flush
-    FlushDone,
-    /// what the waiting client has received so far; closes its connection
-    WaitCheck,
+    /// the journal thread answers the held flush of waiting connection k
+    FlushDone { k: usize },
+    /// what the waiting client k has received so far; closes its connection
+    WaitCheck { k: usize },
 }
 
 fn opt_u32(o: &Option<u32>) -> String {
@@ -263,8 +263,8 @@ fn op_sym(o: &Op) -> String {
         Op::Timer => "TIMER".into(),
         Op::Prune => "PRUNE".into(),
         Op::SubmitW { n, rq, prio } => format!("SUBMITW {n} {} {prio}", rq.sym()),
-        Op::FlushDone => "FLUSHDONE".into(),
-        Op::WaitCheck => "WAITCHECK".into(),
+        Op::FlushDone { k } => format!("FLUSHDONE {k}"),
+        Op::WaitCheck { k } => format!("WAITCHECK {k}"),
     }
 }
 
@@ -320,8 +320,8 @@ fn parse_op(line: &str) -> Op {
         "TIMER" => Op::Timer,
         "PRUNE" => Op::Prune,
         "SUBMITW" => Op::SubmitW { n: t[1].parse().unwrap(), rq: RqSpec::parse(t[2]), prio: t[3].parse().unwrap() },
-        "FLUSHDONE" => Op::FlushDone,
-        "WAITCHECK" => Op::WaitCheck,
+        "FLUSHDONE" => Op::FlushDone { k: t.get(1).map(|x| x.parse().unwrap()).unwrap_or(0) },
+        "WAITCHECK" => Op::WaitCheck { k: t.get(1).map(|x| x.parse().unwrap()).unwrap_or(0) },
         _ => panic!("bad op {line}"),
     }
 }
@@ -334,10 +334,11 @@ struct H {
     /// the last prune request the journal thread received: (live jobs, live workers), sorted
     pruned: Rc<RefCell<Option<(Vec<u32>, Vec<u32>)>>>,
     /// hold the next journal flush request (set by SUBMITW) / the held request
-    hold_flush: Rc<std::cell::Cell<bool>>,
-    held_flush: Rc<RefCell<Option<tokio::sync::oneshot::Sender<()>>>>,
-    /// the connection of the waiting client: channels, its job (known once the response arrived)
-    wait_conn: Option<(futures::channel::mpsc::UnboundedSender<tako::Result<FromClientMessage>>, futures::channel::mpsc::UnboundedReceiver<ToClientMessage>, Option<u32>)>,
+    hold_flush: Rc<std::cell::Cell<Option<usize>>>,
+    held_flush: Rc<RefCell<Vec<(usize, tokio::sync::oneshot::Sender<()>)>>>,
+    /// the connections of the waiting clients (index = k): channels, the job (known once the
+    /// response arrived); None = closed
+    wait_conns: Vec<Option<(futures::channel::mpsc::UnboundedSender<tako::Result<FromClientMessage>>, futures::channel::mpsc::UnboundedReceiver<ToClientMessage>, Option<u32>)>>,
     /// jobs with a JobCompleted record in the journal
     completed_jobs: Rc<RefCell<Vec<u32>>>,
     launch_seen: std::collections::HashMap<u32, usize>,
@@ -405,8 +406,8 @@ impl H {
         let ev2 = events.clone();
         let pruned: Rc<RefCell<Option<(Vec<u32>, Vec<u32>)>>> = Default::default();
         let pr2 = pruned.clone();
-        let hold_flush: Rc<std::cell::Cell<bool>> = Default::default();
-        let held_flush: Rc<RefCell<Option<tokio::sync::oneshot::Sender<()>>>> = Default::default();
+        let hold_flush: Rc<std::cell::Cell<Option<usize>>> = Default::default();
+        let held_flush: Rc<RefCell<Vec<(usize, tokio::sync::oneshot::Sender<()>)>>> = Default::default();
         let completed_jobs: Rc<RefCell<Vec<u32>>> = Default::default();
         let (hold2, held2, comp2) = (hold_flush.clone(), held_flush.clone(), completed_jobs.clone());
         tokio::task::spawn_local(async move {
@@ -421,10 +422,9 @@ impl H {
                         }
                     }
                     EventStreamMessage::FlushJournal(cb) => {
-                        if hold2.get() && held2.borrow().is_none() {
+                        if let Some(k) = hold2.take() {
                             // the journal thread is slow: the rest of the server runs meanwhile
-                            hold2.set(false);
-                            *held2.borrow_mut() = Some(cb);
+                            held2.borrow_mut().push((k, cb));
                             continue;
                         }
                         let _ = cb.send(());
@@ -451,7 +451,7 @@ impl H {
             let sink = resp_tx.sink_map_err(|e| tako::Error::from(format!("{e:?}")));
             client_rpc_loop(sink, req_rx, server_dir, state_ref, &senders, Arc::new(Notify::new())).await;
         });
-        H { hq, req_tx, resp_rx, events, pruned, hold_flush, held_flush, wait_conn: None, completed_jobs, launch_seen: Default::default(), out: String::new(), dead: false }
+        H { hq, req_tx, resp_rx, events, pruned, hold_flush, held_flush, wait_conns: vec![], completed_jobs, launch_seen: Default::default(), out: String::new(), dead: false }
     }
 
     async fn client(&mut self, m: FromClientMessage) -> Option<ToClientMessage> {
@@ -554,9 +554,9 @@ impl H {
             Op::Sched => sim.scheduling_flag(),
             Op::End { w, t, .. } => sim.pending_tasks(Self::wid(*w)).iter().any(|(x, _)| x == t),
             Op::FailNext { w, .. } => sim.workers.contains_key(&Self::wid(*w)),
-            Op::SubmitW { .. } => self.wait_conn.is_none(),
-            Op::FlushDone => self.held_flush.borrow().is_some(),
-            Op::WaitCheck => matches!(&self.wait_conn, Some((_, _, Some(_)))),
+            Op::SubmitW { .. } => self.wait_conns.iter().filter(|c| c.is_some()).count() < 3 && self.hold_flush.get().is_none(),
+            Op::FlushDone { k } => self.held_flush.borrow().iter().any(|(x, _)| x == k),
+            Op::WaitCheck { k } => matches!(self.wait_conns.get(*k), Some(Some((_, _, Some(_))))),
             _ => true,
         }
     }
@@ -758,18 +758,21 @@ impl H {
                             job_id: None,
                         };
                         let stream = StreamEvents { mode: StreamEventsMode::LiveEvents, enable_worker_overviews: false, filter: EventFilter::new(None, EventFilterFlags::JOB_EVENTS) };
-                        this.hold_flush.set(true);
+                        let k = this.wait_conns.len();
+                        this.hold_flush.set(Some(k));
                         let _ = wtx.unbounded_send(Ok(FromClientMessage::Submit(req, Some(stream))));
-                        this.wait_conn = Some((wtx, rrx, None));
-                        resp_line = Some("= RESP submitw pending".into());
+                        this.wait_conns.push(Some((wtx, rrx, None)));
+                        resp_line = Some(format!("= RESP submitw pending {k}"));
                     }
-                    Op::FlushDone => {
-                        if let Some(cb) = this.held_flush.borrow_mut().take() {
+                    Op::FlushDone { k } => {
+                        let pos = this.held_flush.borrow().iter().position(|(x, _)| x == k);
+                        if let Some(pos) = pos {
+                            let (_, cb) = this.held_flush.borrow_mut().remove(pos);
                             let _ = cb.send(());
                         }
                         settle().await;
                         let mut line = "= RESP submit ?false".to_string();
-                        if let Some((_, rrx, job)) = this.wait_conn.as_mut() {
+                        if let Some(Some((_, rrx, job))) = this.wait_conns.get_mut(*k) {
                             if let Ok(Some(r)) = rrx.try_next() {
                                 if let ToClientMessage::SubmitResponse(SubmitResponse::Ok { job: j, .. }) = &r {
                                     *job = Some(j.info.id.as_num());
@@ -779,9 +782,9 @@ impl H {
                         }
                         resp_line = Some(line);
                     }
-                    Op::WaitCheck => {
+                    Op::WaitCheck { k } => {
                         settle().await;
-                        if let Some((_, mut rrx, job)) = this.wait_conn.take() {
+                        if let Some((_, mut rrx, job)) = this.wait_conns.get_mut(*k).and_then(|c| c.take()) {
                             let job = job.unwrap_or(0);
                             let mut delivered = false;
                             while let Ok(Some(m)) = rrx.try_next() {
@@ -1000,6 +1003,10 @@ async fn gen_trace(id: u64, rng: &mut Rng, tier: &str) -> String {
                         if rng.chance(1, 25) {
                             deps.push(rng.below(40) as u32); // maybe unknown / maybe a task of an earlier submit
                         }
+                        if !deps.is_empty() && rng.chance(1, 8) {
+                            let d = deps[rng.below(deps.len() as u64) as usize];
+                            deps.push(d); // the same dependency named twice
+                        }
                         tasks.push((base + i, rng.below(rqs.len() as u64) as u32, *rng.pick(&[0, 0, 1, 3]), random_crash(rng), deps));
                     }
                     cands.push((submit_w, Op::SubmitG { job, rqs, tasks, maxfails }));
@@ -1024,13 +1031,16 @@ async fn gen_trace(id: u64, rng: &mut Rng, tier: &str) -> String {
             if rng.chance(1, 12) {
                 cands.push((2, Op::Prune));
             }
-            if h.wait_conn.is_none() && jobs.len() < 4 && rng.chance(1, 6) {
+            if jobs.len() < 5 && rng.chance(1, 5) {
                 cands.push((4, Op::SubmitW { n: rng.range(1, 3) as u32, rq: RqSpec { nodes: 0, units: [1, 0, 0] }, prio: *rng.pick(&[0, 1, 3]) }));
             }
-            if h.held_flush.borrow().is_some() {
-                cands.push((3, Op::FlushDone));
-            } else if matches!(&h.wait_conn, Some((_, _, Some(_)))) {
-                cands.push((2, Op::WaitCheck));
+            for (k, _) in h.held_flush.borrow().iter() {
+                cands.push((2, Op::FlushDone { k: *k }));
+            }
+            for (k, c) in h.wait_conns.iter().enumerate() {
+                if matches!(c, Some((_, _, Some(_)))) {
+                    cands.push((1, Op::WaitCheck { k }));
+                }
             }
             if cfg.faults && rng.chance(1, 10) {
                 cands.push((2, Op::Timer));
@@ -1079,8 +1089,10 @@ async fn gen_trace(id: u64, rng: &mut Rng, tier: &str) -> String {
         }
     }
     let _ = next_job;
-    if !h.dead {
-        h.exec(&Op::FlushDone).await;
+    for k in 0..h.wait_conns.len() {
+        if !h.dead {
+            h.exec(&Op::FlushDone { k }).await;
+        }
     }
     // drain phase (half of the traces): no more faults or requests; deliver every message, run the
     // scheduler whenever it asks, let every started task end successfully - until the system is at
@@ -1123,8 +1135,10 @@ async fn gen_trace(id: u64, rng: &mut Rng, tier: &str) -> String {
             }
         }
     }
-    if !h.dead {
-        h.exec(&Op::WaitCheck).await;
+    for k in 0..h.wait_conns.len() {
+        if !h.dead {
+            h.exec(&Op::WaitCheck { k }).await;
+        }
     }
     writeln!(h.out, "END").unwrap();
     h.out
